@@ -4,7 +4,7 @@ from vt import detsched as ds, aosim, timersim
 ID = 'C10'
 ENGINE = 'detsched'
 TECHNIQUE = 'runtime monitoring under a deterministic cooperative scheduler with a virtual clock: the linearised queue-operation log is stamped with virtual time and compared with the ideal posting instants'
-RULE = ('a started ActiveObject with 1-4 concurrent timed sources (post_fifo/post_lifo with period in {0.01,0.05,0.1,1,2.5} and, for finite sources, also 0, times 0..6, deferred '
+RULE = ('a started ActiveObject with 1-4 concurrent timed sources (post_fifo/post_lifo with period in {0.01,0.05,0.1,1,2.5} and, for finite sources, also 0, times 0..6 (a few sources: 257-300 postings, period 0 or 1 ms), deferred '
         'True/False/default, started at different virtual instants), real timer threads run by detsched, time.sleep replaced by a virtual '
         'clock. Instantaneous-computation runs (clock advances only when nothing is runnable): every posting instant must equal t0 + k*period '
         '(k from 1 if deferred else 0), the count at a horizon not on a period boundary must equal min(times, instants before the horizon) '
@@ -13,7 +13,7 @@ RULE = ('a started ActiveObject with 1-4 concurrent timed sources (post_fifo/pos
         'distinct_nontrivial = distinct (time model, sorted source parameters) tuples')
 CASES = {'quick': 1500, 'thorough': 60000}
 BUDGET = {'quick': 150, 'thorough': 300}
-REQUIRE = {'runs': 600, 'postings_checked': 3000, 'sources_nondeferred': 200, 'sources_infinite': 100, 'sources_lifo': 200, 'early_advance_runs': 100, 'sources_with_zero_period': 100}
+REQUIRE = {'runs': 600, 'postings_checked': 3000, 'sources_nondeferred': 200, 'sources_infinite': 100, 'sources_lifo': 200, 'early_advance_runs': 100, 'sources_with_zero_period': 100, 'sources_with_large_repeat_count': 15}
 ASSUME = ['no cancellation or stop in these runs (C11, C12)', 'virtual time: wall-clock drift of real sleeps is outside the statement']
 ANNOUNCE_CASES = True
 
@@ -73,6 +73,8 @@ def run_case(ctx, n):
         ctx.count('sources_lifo')
       if src['period'] == 0:
         ctx.count('sources_with_zero_period')
+      if src['times'] > 256:
+        ctx.count('sources_with_large_repeat_count')
       want_op = 'append' if src['kind'] == 'fifo' else 'appendleft'
       wrong = [p for p in mine if p[1] != want_op]
       if wrong:
